@@ -253,6 +253,9 @@ def c05(tier, seed, only=None):
     for j in jobs:
         j["cfg"]["snap_graph"] = True
         j["cfg"]["render"] = True
+        if tier != "quick":
+            # every transition costs two deserialisations: a smaller breadth-first prefix per exploration
+            j["cfg"]["max_states"] = 2500
         name = j["scn"]["name"]
         if tier == "quick":
             # every transition costs two deserialisations here: keep the quick tier small
